@@ -19,7 +19,7 @@ RULE = ("two case families.  limits: seeded (limit_request_line, limit_request_f
         "before rejection must stay <= max(limit_request_line, max_buffer_headers) + 2*8192; the run is cut at 4x that. "
         "distinct = distinct (family, cfg, request/peer shape) by hash; all runs non-trivial")
 ASSUMPTIONS = [
-    "limit units: a size exactly at the limit or up to 2 bytes under it may go either way (CRLF counted or not)",
+    "limit units: a size exactly at the limit or up to 2 bytes under it may go either way (CRLF counted or not), but the same way under every segmentation of the same bytes",
     "where the configuration documents 0 = unlimited (limit_request_line, limit_request_field_size) no bound is claimed for that state",
     "the bound B(cfg) = max(limit_request_line, max_buffer_headers) + 2*8192 is the harness's reading of 'a bound determined by the configuration'",
     "chunk *data* is streamed to the consumer and is not protocol data held in memory",
@@ -162,6 +162,17 @@ def run(case, choices):
                             "request within all limits was not served (terminal %r); %s" % (term, ctx))
         else:
             res.probes["in_guard_band"] += 1
+            # whichever unit the limit is read in (with or without the line terminator), it is one reading: the decision for this
+            # request cannot depend on how its bytes were cut into reads
+            accepted = bool(obs)
+            for kind2, cuts2 in (("max", ()), ("bytes1", tuple(range(1, min(len(data), 12000))))):
+                obs2, term2, _ = observe(cfg, data, cuts2)
+                if bool(obs2) != accepted:
+                    res.violate("C12:limit-decision-depends-on-segmentation",
+                                "a request at its limit (guard band) is %s under segmentation %s and %s under %s; %s"
+                                % ("served" if accepted else "rejected %r" % (term[:2],), case["seg"],
+                                   "served" if obs2 else "rejected %r" % (term2[:2],), kind2, ctx))
+                    break
         res.shape = h64("limits", sorted(cfgd.items()), n, nf, [len(f) for f in fields], case["seg"])
         res.states.add(h64("limits", must_reject, must_accept, term[0]))
         res.sample = {"family": "limits", "cfg": cfgd, "line_len": n, "fields": nf, "must_reject": must_reject,
